@@ -104,6 +104,12 @@ pub fn simd(out: &mut Out, tier: &str, seed: u64) {
         let r = guarded(|| sonic_rs::verif_hooks::parser::get_escaped_branchless_u32(prev as u32, a as u32));
         out.case("t2", &["escaped32", &sx(prev as i128), &sx(a as u32 as i128)], &res(r, |(e, p)| format!("{},{}", sx(e as i128), sx(p as i128))), true);
         // the portable prefix_xor is what the hook calls in the build without PCLMUL; the native one must agree with it
+        let mut block = [0u8; 64];
+        for b in block.iter_mut() {
+            *b = if rng.chance(1, 2) { *rng.pick(b" \t\n\r") } else if rng.chance(1, 2) { *rng.pick(b"\x0b\x0c\x00\x1f!\"a,IJM`\x89\x8a\x8d\xa0\xc9\xe0\x20\x21\x1f") } else { rng.next() as u8 };
+        }
+        let r = guarded(|| sonic_rs::verif_hooks::get_nonspace_bits(&block));
+        out.case("t2", &["nonspace_fallback", &crate::out::hex(&block)], &res(r, |v| sx(v as i128)), true);
         let r = guarded(|| sonic_rs::verif_hooks::prefix_xor(a));
         out.case("t2", &["prefix_xor_fallback", &sx(a as i128)], &res(r, |v| sx(v as i128)), true);
     }
@@ -147,4 +153,18 @@ pub fn dom(out: &mut Out, tier: &str, seed: u64) {
         out.case("t2", &["meta", &sx(kind as i128), &sx(idx as i128), &sx(len as i128)], &res(r, |(w, i, l)| format!("{},{},{}", sx(w as i128), sx(i as i128), sx(l as i128))), idx < (1 << 29));
     }
     out.add("t2 meta", n as u64);
+}
+
+/// C20: Position::from_index as translated (a loop over the prefix)
+pub fn pos(out: &mut Out, tier: &str, seed: u64) {
+    let mut rng = Rng::new(seed ^ 0x7432_706f);
+    let n = if tier == "thorough" { 20_000 } else { 2_000 };
+    for _ in 0..n {
+        let len = rng.below(70);
+        let data: Vec<u8> = (0..len).map(|_| if rng.chance(1, 3) { b'\n' } else { *rng.pick(b"ab\x0b\x09\x0d\x8a\x00\xff\x01 x") }).collect();
+        let i = rng.below(len + 4);
+        let r = guarded(|| sonic_rs::verif_hooks::position_from_index(i, &data));
+        out.case("t2", &["from_index", &sx(i as i128), &crate::out::hex(&data)], &res(r, |(l, c)| format!("{},{}", sx(l as i128), sx(c as i128))), true);
+    }
+    out.add("t2 from_index", n as u64);
 }
